@@ -12,7 +12,7 @@ def _tmpdir(prefix):
     return tempfile.mkdtemp(prefix=prefix, dir=base)
 
 
-@finite("C12.cache_lookup", ["C12"], note="find_converted_db / compare_stored_gtf of src/gtf2db.py observe only: is there a record for this "
+@finite("C12.cache_lookup", ["C12", "C17"], note="find_converted_db / compare_stored_gtf of src/gtf2db.py observe only: is there a record for this "
         "GTF path, do GTF and database exist, do their mtimes equal the recorded ones, does the recorded completeness flag equal the "
         "requested one. All 2^7 combinations are realised with real files (os.utime) and the real functions: a cached database is "
         "returned exactly when every one of these holds, and it is the recorded database of THIS GTF")
